@@ -9,7 +9,7 @@ enforce build => none does; in both, flags minus complain (as a set) and the oth
 equal those of the same block in the build with neither option.
 """
 import itertools, json, os
-from .. import common as C, cfgx, scan, gox
+from .. import common as C, cfgx, scan, gox, refparser
 
 PROP = 'C05'
 FLAGSETS = [(), ('complain',), ('attach_disconnected',), ('attach_disconnected', 'complain'),
@@ -82,6 +82,50 @@ def real(tier, ev, fnd):
                 nblocks += compare(mode, '%s %s' % (cfgx.tag(b._replace(mode=mode)), f), blocks_of(en), blocks_of(exx), fnd, f[:-len('.apparmor.d')] if f.endswith('.apparmor.d') else f)
         ev.sample({'config': cfgx.tag(b), 'files': len(cfgx.aa_files(tn))}, cap=4)
     ev.add(states=len(cfgs), transitions=nblocks, real_blocks_compared=nblocks, real_configurations=len(cfgs))
+    # second opinion: what the reference parser itself says about the mode of every block (`Name:` / `Mode:` of its -d dump)
+    sel = bases if tier == 'thorough' else bases[:1]
+    jobs = [(tuple(b._replace(mode=m)), trees[b._replace(mode=m)], ex.cas) for b in sel for m in ('complain', 'enforce')]
+    from concurrent.futures import ProcessPoolExecutor
+    with ProcessPoolExecutor(min(C.NPROC, max(1, len(jobs)))) as pool:
+        for cfg_t, res in pool.map(_parser_modes, jobs):
+            c = cfgx.Cfg(*cfg_t)
+            for f, name, mode in res:
+                ev.add(parser_mode_lines=1)
+                fname = f[:-len('.apparmor.d')] if f.endswith('.apparmor.d') else f
+                is_c = 'complain' in mode
+                if c.mode == 'complain' and not is_c:
+                    fnd.report('complain-missing file=%s block=%s' % (fname, name), '%s %s: the reference parser reports block %s in mode `%s` in a --complain build' % (cfgx.tag(c), f, name, mode), {'config': c._asdict(), 'file': f})
+                if c.mode == 'enforce' and is_c:
+                    fnd.report('enforce-keeps-complain file=%s block=%s' % (fname, name), '%s %s: the reference parser reports block %s in complain mode in an --enforce build' % (cfgx.tag(c), f, name), {'config': c._asdict(), 'file': f})
+
+
+def _parser_modes(a):
+    """(file, block name as the parser prints it, mode text) for every block of every profile of one tree"""
+    import re, shutil, subprocess
+    from concurrent.futures import ThreadPoolExecutor
+    cfg_t, tree, cas = a
+    cfg = cfgx.Cfg(*cfg_t)
+    base = os.path.join(C.scratch(), 'c05base.%d' % os.getpid())
+    shutil.rmtree(base, ignore_errors=True)
+    refparser.make_base(base, tree, cas, cfg)
+    out = []
+
+    def one(f):
+        ok, err, dump = refparser.parse(base, os.path.join(base, f), '-d')
+        res = []
+        if ok:
+            top = None
+            for m in re.finditer(r'^Name:\t\t(\S+)\n(?:.*\n)*?Mode: (.*)$', dump.decode(errors='replace'), re.M):
+                name = m.group(1)
+                if top is None:
+                    top = name
+                res.append((f, name if name == top else top + '//' + name, m.group(2).strip()))
+        return res
+    with ThreadPoolExecutor(4) as tp:
+        for r in tp.map(one, cfgx.aa_files(tree)):
+            out += r
+    shutil.rmtree(base, ignore_errors=True)
+    return cfg_t, out
 
 
 def gen_texts():
